@@ -159,6 +159,7 @@ def auer_unrolled(t, A, method, clause, expS, expP, N=3):
         saved = list(t.pre)
         rr = z3.Const("r!q", REGION)
         t.pre = [A.eps >= 0, z3.ForAll([rr], z3.And(*[w(rr) >= 0 for w in A.WID]))]
+        t.bounded_fn = bounded
         try:
             paths = t.run(ALGOS["Auer"], "Auer." + method, [], self_val=obj, setmode=False)
         finally:
@@ -188,6 +189,7 @@ def _auer_discarding(m):
         cert0 = lambda p: z3.Exists([q], z3.And(z3.Select(A.S0, q), q != p, z3.And(*[small_m(A, p, q) > wsum(A, p, q, k) for k in range(m)])))
         bounded = lambda: auer_unrolled(t, A, "discarding", "exactly_designs_beaten_by_more_than_both_own_widths_in_every_objective_leave",
                                         lambda e: z3.And(z3.Select(A.S0, e), z3.Not(cert0(e))), lambda e: z3.Select(A.P0, e))
+        t.bounded_fn = bounded
         try:
             paths = t.run(ALGOS["Auer"], "Auer.discarding", [], self_val=A.obj, setmode=True)
         except Unsupported as ex_:
@@ -228,6 +230,7 @@ def _auer_pareto(m):
             newb = lambda p: z3.And(P1b(p), z3.Not(heldb(p)))
             auer_unrolled(t, A, "pareto_updating", "passing_designs_not_held_back_move_to_P(own widths)",
                           lambda e: z3.And(z3.Select(A.S0, e), z3.Not(newb(e))), lambda e: z3.Or(z3.Select(A.P0, e), newb(e)))
+        t.bounded_fn = bounded
         try:
             paths = t.run(ALGOS["Auer"], "Auer.pareto_updating", [], self_val=A.obj, setmode=True)
         except Unsupported as ex_:
